@@ -338,6 +338,10 @@ def check(ctx):
     rule_reshape(ctx)
     from . import c10
     # early exit of reshape is order sensitive (shared with C10-R3)
+    # a tuple / list of dimensions given to a transform is grouped by _deal_with_axis in the listed order (shared with C08)
+    from . import c08 as _c08
+    from ..report import Renamed as _Ren2
+    _c08.rule_deal_with_axis(_Ren2(ctx, {'*': 'R5'}))
     ctx.not_decided += ['value at each grouped position (follows from NumPy C-order semantics, trusted)', 'reverse= and set-valued dims of flatten']
     ctx.trusted += ['ndarray.reshape is C-ordered by default', "np.meshgrid(indexing='ij') + ravel() enumerates in row-major order of the inputs"]
     return EXPLANATION
